@@ -190,7 +190,9 @@ structure Entry (F : Type) where
   deriving DecidableEq, Repr
 
 /-- `fresh` = a newly constructed object; `norm f v` = what printing `v` and parsing the text back gives for field `f`
-(identity for names and flags, 14-digit rounding for doubles, a whole print/read cycle for a nested block);
+(identity for names and flags; identity for doubles as well, since `dump_raw` prints 17 significant digits
+(`precision(DBL_DIG + 2)`) and an IEEE-754 double survives decimal → binary at 17 digits; a whole print/read cycle
+for a nested block);
 `test m v` = the writer's condition on member `m` -/
 structure Sys (F V : Type) where
   entries : List (Entry F)
